@@ -17,24 +17,29 @@ Definition maxFrame : Z := 16777216.          (* HTTP/2 frame length is 24 bits 
 
 (* stream inFlow {limit,pendingData,pendingUpdate,delta}, connection trInFlow {limit,unacked},
    dead = the stream was closed with RST_STREAM(FLOW_CONTROL_ERROR) and left activeStreams *)
-Record st := mkst { limit : Z; pd : Z; pu : Z; delta : Z; climit : Z; unacked : Z; dead : bool }.
+Record st := mkst { limit : Z; pd : Z; pu : Z; delta : Z; climit : Z; unacked : Z; dead : bool;
+                    iws : Z  (* uint32(t.initialWindowSize): window of new streams, raised by BDP updates *) }.
 
 (* ---- trInFlow ---- *)
 Definition tr_newLimit (n : Z) (s : st) : Z * st :=
-  (u32 (n - climit s), mkst (limit s) (pd s) (pu s) (delta s) n (unacked s) (dead s)).
+  if n <=? climit s then (0, s)   (* the connection window never shrinks *)
+  else (u32 (n - climit s), mkst (limit s) (pd s) (pu s) (delta s) n (unacked s) (dead s) (iws s)).
 
 Definition tr_onData (n : Z) (s : st) : Z * st :=
   let un := u32 (unacked s + n) in
   if un <? climit s / 4
-  then (0, mkst (limit s) (pd s) (pu s) (delta s) (climit s) un (dead s))
-  else (un, mkst (limit s) (pd s) (pu s) (delta s) (climit s) 0 (dead s)).
+  then (0, mkst (limit s) (pd s) (pu s) (delta s) (climit s) un (dead s) (iws s))
+  else (un, mkst (limit s) (pd s) (pu s) (delta s) (climit s) 0 (dead s) (iws s)).
 
 Definition tr_reset (s : st) : Z * st :=
-  (unacked s, mkst (limit s) (pd s) (pu s) (delta s) (climit s) 0 (dead s)).
+  (unacked s, mkst (limit s) (pd s) (pu s) (delta s) (climit s) 0 (dead s) (iws s)).
 
 (* ---- inFlow ---- *)
 Definition in_newLimit (n : Z) (s : st) : st :=
-  mkst n (pd s) (pu s) (delta s) (climit s) (unacked s) (dead s).
+  mkst n (pd s) (pu s) (delta s) (climit s) (unacked s) (dead s) (iws s).
+
+Definition set_iws (n : Z) (s : st) : st :=
+  mkst (limit s) (pd s) (pu s) (delta s) (climit s) (unacked s) (dead s) n.
 
 Definition in_maybeAdjust (n0 : Z) (s : st) : Z * st :=
   let n := if n0 >? max_i32 then max_i32 else n0 in
@@ -42,14 +47,14 @@ Definition in_maybeAdjust (n0 : Z) (s : st) : Z * st :=
   let estUntransmittedData := i32 (u32 (n - pd s)) in
   if estUntransmittedData >? estSenderQuota then
     let d := if u32 (limit s + n) >? maxWindowSize then u32 (maxWindowSize - limit s) else n in
-    (d, mkst (limit s) (pd s) (pu s) d (climit s) (unacked s) (dead s))
+    (d, mkst (limit s) (pd s) (pu s) d (climit s) (unacked s) (dead s) (iws s))
   else (0, s).
 
 (* returns (error?, state); pendingData is updated before the comparison, as in the code *)
 Definition in_onData (n : Z) (s : st) : bool * st :=
   let pd' := u32 (pd s + n) in
   (u32 (pd' + pu s) >? u32 (limit s + delta s),
-   mkst (limit s) pd' (pu s) (delta s) (climit s) (unacked s) (dead s)).
+   mkst (limit s) pd' (pu s) (delta s) (climit s) (unacked s) (dead s) (iws s)).
 
 Definition in_onRead (n : Z) (s : st) : Z * st :=
   if pd s =? 0 then (0, s) else
@@ -58,14 +63,14 @@ Definition in_onRead (n : Z) (s : st) : Z * st :=
   let delta' := if n >? delta s then 0 else u32 (delta s - n) in
   let pu' := u32 (pu s + n2) in
   if pu' >=? limit s / 4
-  then (pu', mkst (limit s) pd' 0 delta' (climit s) (unacked s) (dead s))
-  else (0, mkst (limit s) pd' pu' delta' (climit s) (unacked s) (dead s)).
+  then (pu', mkst (limit s) pd' 0 delta' (climit s) (unacked s) (dead s) (iws s))
+  else (0, mkst (limit s) pd' pu' delta' (climit s) (unacked s) (dead s) (iws s)).
 
 Definition kill (s : st) : st :=
-  mkst (limit s) (pd s) (pu s) (delta s) (climit s) (unacked s) true.
+  mkst (limit s) (pd s) (pu s) (delta s) (climit s) (unacked s) true (iws s).
 
 Definition snap (s : st) : word :=
-  [limit s; pd s; pu s; delta s; climit s; unacked s].
+  [limit s; pd s; pu s; delta s; climit s; unacked s; iws s].
 
 (* Operations (all integers are taken modulo 2^32, as the driver converts them to uint32):
    [1; size; pad]  handleData of a DATA frame with Length = size of which pad bytes are padding
@@ -108,9 +113,14 @@ Definition stepk (s : st) (k : opk) : word * st :=
     if dead s then ([0] ++ snap s, s) else
     let (wu, s1) := in_onRead (u32 k) s in ([wu] ++ snap s1, s1)
   | ONew n0 =>
+    (* http2Server.updateFlowControl after 7a3f54f: windows configured above the estimate are
+       never lowered; a connection WINDOW_UPDATE is enqueued only for a positive increment and
+       SETTINGS_INITIAL_WINDOW_SIZE only when the stream windows grow *)
     let n := u32 n0 in
-    let s1 := if dead s then s else in_newLimit n s in
-    let (cwu, s2) := tr_newLimit n s1 in ([cwu; 1; n] ++ snap s2, s2)
+    let grow := n >? iws s in
+    let s1 := if grow then set_iws n (if dead s then s else in_newLimit n s) else s in
+    let (cwu, s2) := tr_newLimit n s1 in
+    ([cwu; (if cwu >? 0 then 1 else 0); (if grow then n else 0)] ++ snap s2, s2)
   | OPing =>
     let (cwu, s1) := tr_reset s in ([cwu] ++ snap s1, s1)
   end.
@@ -120,7 +130,7 @@ Definition step (s : st) (op : word) : option (word * st) :=
 
 Definition init (cfg : word) : option st :=
   match cfg with
-  | [l; cl] => Some (mkst (u32 l) 0 0 0 (u32 cl) 0 false)
+  | [l; cl] => Some (mkst (u32 l) 0 0 0 (u32 cl) 0 false (u32 l))
   | _ => None
   end.
 
@@ -149,9 +159,9 @@ Definition run (cfg : word) (ops : list word) : option (list word) :=
    ldead : a stream error was observed
    adjusted : the outstanding read request was granted an extra window update
    bumped   : the configured window was raised (BDP) while such an extra grant was outstanding
-   sshrunk  : a BDP update LOWERED the stream window below the configured one (finding clause 10)
+   sshrunk  : a BDP update LOWERED the stream window below the configured one (clause 10)
    cdead    : updateFlowControl emitted a connection WINDOW_UPDATE with an illegal increment
-              (0 or > 2^31-1, finding clause 9): the framer refuses it, loopy exits and the
+              (0 or > 2^31-1, clause 9): the framer refuses it, loopy exits and the
               connection is closed, so nothing is claimed afterwards *)
 Record led := mkled { adv : Z; rcvd : Z; cadv : Z; crcvd : Z; lim : Z; clim : Z;
                       deliv : Z; readb : Z; want : Z; ldead : bool; adjusted : bool; bumped : bool;
@@ -177,24 +187,12 @@ Definition opk_ok (L : led) (k : opk) : bool :=
   | OData size pad => (0 <=? pad) && (pad <=? size) && (size <? maxFrame)
   | OReq n => (want L =? 0) && (0 <=? n) && (n <? 2^32)
   | ORead k => (0 <=? k) && (k <=? want L) && (k <=? deliv L - readb L)
-  | ONew n => (lim L <=? n) && (clim L <? n) && (n <=? bdpLimit)
+  | ONew n => (1 <=? n) && (n <=? bdpLimit)
   | OPing => true
   end.
 
 Definition op_ok (L : led) (op : word) : bool :=
   match decode_op op with Some k => opk_ok L k | None => false end.
-
-(* the same without the hypothesis that BDP estimates exceed the configured windows (the
-   estimator starts at 65535 whatever InitialWindowSize/InitialConnWindowSize say): this is the
-   gate for evaluating clauses on implementation traces; [opk_ok] is the hypothesis of the theorems *)
-Definition opk_pre (L : led) (k : opk) : bool :=
-  match k with
-  | ONew n => (1 <=? n) && (n <=? bdpLimit)
-  | _ => opk_ok L k
-  end.
-
-Definition op_pre (L : led) (op : word) : bool :=
-  match decode_op op with Some k => opk_pre L k | None => false end.
 
 Definition lstepk (L : led) (k : opk) (o : word) : option led :=
   match k, o with
@@ -216,11 +214,16 @@ Definition lstepk (L : led) (k : opk) (o : word) : option led :=
     let w' := want L - k in
     Some (mkled (adv L + wu) (rcvd L) (cadv L) (crcvd L) (lim L) (clim L) (deliv L) (readb L + k) w'
                 (ldead L) (adjusted L && negb (w' =? 0)) (bumped L && negb (w' =? 0)) (sshrunk L) (cdead L))
-  | ONew n, cwu :: items :: _ =>
-    Some (mkled (if ldead L then adv L else adv L + (n - lim L)) (rcvd L) (cadv L + cwu) (crcvd L)
-                (if ldead L then lim L else n) n (deliv L) (readb L) (want L)
-                (ldead L) (adjusted L) (bumped L || adjusted L)
-                (sshrunk L || (negb (ldead L) && (n <? lim L)))
+  | ONew n, cwu :: items :: sv :: _ =>
+    (* the ledger follows what was put on the wire: SETTINGS_INITIAL_WINDOW_SIZE = sv (0 = none
+       sent) moves every stream window by sv - lim; a connection WINDOW_UPDATE item (items > 0)
+       means the connection limit is now n *)
+    let grow := negb (ldead L) && negb (sv =? 0) in
+    Some (mkled (if grow then adv L + (sv - lim L) else adv L) (rcvd L) (cadv L + cwu) (crcvd L)
+                (if grow then sv else lim L) (if items =? 0 then clim L else n)
+                (deliv L) (readb L) (want L)
+                (ldead L) (adjusted L) (bumped L || (grow && adjusted L))
+                (sshrunk L || (grow && (sv <? lim L)))
                 (cdead L || negb ((items =? 0) || ((1 <=? cwu) && (cwu <=? max_i32)))))
   | OPing, cwu :: _ =>
     Some (mkled (adv L) (rcvd L) (cadv L + cwu) (crcvd L) (lim L) (clim L) (deliv L) (readb L) (want L)
@@ -245,11 +248,12 @@ Definition cwin (L : led) : Z := cadv L - crcvd L.
    7  connection window: <= 2^31-1, and always > 3/4 of the configured connection window
    8  after a read request of n bytes the window covers the rest of the message
       (or is at the protocol maximum, less the batched < limit/4)
-   9  [finding] every connection-level WINDOW_UPDATE increment emitted by updateFlowControl is
-      in [1, 2^31-1]; false when the BDP estimate n is <= the configured connection window
-      (uint32 underflow of n - limit, or 0); the connection is then torn down: nothing more is claimed
-   10 [finding] clauses 4 and 8 in states after a BDP update lowered the stream window below the
-      configured one (SETTINGS_INITIAL_WINDOW_SIZE decrease while pendingUpdate may exceed limit/4) *)
+   9  every connection-level WINDOW_UPDATE increment emitted by updateFlowControl is in
+      [1, 2^31-1] (before fix 7a3f54f: uint32 underflow of n - limit, or 0, when the BDP estimate
+      was <= the configured connection window); if false the connection is torn down and nothing
+      more is claimed
+   10 clauses 4 and 8 in states after a BDP update lowered the stream window below the configured
+      one (cannot happen after fix 7a3f54f; before it the stream could stall) *)
 Definition clauses_k (i : Z) (L : led) (k : opk) (o : word) (L' : led) : list (Z * Z * bool) :=
   if cdead L' then [(9, i, false)] else
   let conn := [(7, i, (cwin L' <=? max_i32) && (3 * clim L' <? 4 * cwin L') && (cwin L' <=? clim L'))] in
@@ -277,7 +281,7 @@ Fixpoint clauses_from (i : Z) (L : led) (ops obs : list word) : list (Z * Z * bo
   match ops, obs with
   | [], [] => []
   | op :: r, o :: r' =>
-    if op_pre L op && negb (cdead L) then
+    if op_ok L op && negb (cdead L) then
       match lstep L op o with
       | Some L' => clauses_at i L op o L' ++ clauses_from (i + 1) L' r r'
       | None => [(0, i, false)]
@@ -289,9 +293,9 @@ Fixpoint clauses_from (i : Z) (L : led) (ops obs : list word) : list (Z * Z * bo
 Definition clauses (cfg : word) (ops obs : list word) : list (Z * Z * bool) :=
   if cfg_ok cfg then clauses_from 0 (linit cfg) ops obs else [].
 
-(* clauses 5, 6, 9, 10 are false on the faithful model (see C04_*_refuted); the others hold *)
+(* clauses 5 and 6 are false on the faithful model (see C04_*_refuted); the others hold *)
 Definition proved_clause (c : Z * Z * bool) : bool :=
-  match c with (id, _, ok) => ok || (id =? 5) || (id =? 6) || (id =? 9) || (id =? 10) end.
+  match c with (id, _, ok) => ok || (id =? 5) || (id =? 6) end.
 
 Definition holds_b (cfg : word) (ops obs : list word) : bool :=
   forallb proved_clause (clauses cfg ops obs).
@@ -327,33 +331,5 @@ Definition fin (cfg : word) (ops : list word) : option (st * led) :=
     match init cfg with Some s => fin_from s (linit cfg) ops | None => None end
   else None.
 
-(* Codec.decide, except that the registered finding clauses (5, 6, 9, 10) are reported only
-   after everything else (all other clauses, then correspondence) has been checked, so that a
-   case which exhibits a known finding is still fully checked. *)
-Definition is_finding (c : Z * Z * bool) : bool :=
-  match c with (id, _, _) => (id =? 5) || (id =? 6) || (id =? 9) || (id =? 10) end.
-
-(* reachable states without the hypothesis that BDP estimates exceed the configured windows *)
-Fixpoint finp_from (s : st) (L : led) (ops : list word) : option (st * led) :=
-  match ops with
-  | [] => Some (s, L)
-  | op :: r =>
-    if op_pre L op && negb (cdead L) then
-      match step s op with
-      | Some (o, s') => match lstep L op o with Some L' => finp_from s' L' r | None => None end
-      | None => None
-      end
-    else None
-  end.
-
-Definition finp (cfg : word) (ops : list word) : option (st * led) :=
-  if cfg_ok cfg then
-    match init cfg with Some s => finp_from s (linit cfg) ops | None => None end
-  else None.
-
 Definition check_case (c : case) : verdict :=
-  let cl := clauses (c_cfg c) (c_ops c) (c_obs c) in
-  match decide (run (c_cfg c) (c_ops c)) (c_obs c) (filter (fun x => negb (is_finding x)) cl) with
-  | Agree => decide (run (c_cfg c) (c_ops c)) (c_obs c) cl
-  | v => v
-  end.
+  decide (run (c_cfg c) (c_ops c)) (c_obs c) (clauses (c_cfg c) (c_ops c) (c_obs c)).
